@@ -15,6 +15,18 @@ int main() {
     std::cout << "Definition pg_PathChars_tbl : list bool := [";
     for (int c = 0; c < 256; ++c) std::cout << (c ? ";" : "") << (PathChars()[static_cast<unsigned char>(c)] ? "true" : "false");
     std::cout << "].\nDefinition pg_PathChars : cset := mem_tbl pg_PathChars_tbl.\n";
+    // the bytes Uri::absolutePath() leaves verbatim (its character set is a function-local static: probed through
+    // the public API, one byte at a time, on an http Uri)
+    std::cout << "Definition pg_AbsPathChars_tbl : list bool := [";
+    for (int c = 0; c < 256; ++c) {
+        const char ch = static_cast<char>(c);
+        AnyP::Uri u;
+        u.setScheme(AnyP::PROTO_HTTP, "http");
+        u.path(SBuf(&ch, 1));
+        const auto ap = u.absolutePath();
+        std::cout << (c ? ";" : "") << ((ap.length() == 1 && ap[0] == ch) ? "true" : "false");
+    }
+    std::cout << "].\nDefinition pg_AbsPathChars : cset := mem_tbl pg_AbsPathChars_tbl.\n";
     // the three bytes Encode() emits for every byte value (appendf \"%%%02X\")
     std::cout << "Definition pg_encoded_tbl : list (list N) := [";
     for (int c = 0; c < 256; ++c) {
